@@ -453,7 +453,16 @@ fn input_for(rng: &mut Rng, names: &[&str]) -> Val {
     let mut ks: Vec<&str> = names.to_vec();
     rng.shuffle(&mut ks);
     let n = rng.range(1, ks.len());
-    let pairs: Vec<Val> = ks[..n].iter().enumerate().map(|(i, k)| Val::pair(sym(k), Val::Int(500 + i as i32))).collect();
+    // what a key is bound to does not matter for "the input provides it": numbers, but also unit, false and containers
+    let mut bound = |i: usize| match rng.below(8) {
+        0 => Val::Unit,
+        1 => Val::False,
+        2 => Val::True,
+        3 => Val::text("w"),
+        4 => Val::List(vec![Val::Int(1), Val::Int(2)]),
+        _ => Val::Int(500 + i as i32),
+    };
+    let pairs: Vec<Val> = ks[..n].iter().enumerate().map(|(i, k)| Val::pair(sym(k), bound(i))).collect();
     match rng.below(9) {
         0 | 1 => Val::Unit,
         2 => pairs[0].clone(),
